@@ -203,6 +203,7 @@ def one_case(ctx, rng, wd, which, inclusive=False, force_N=None):
         snaps, inf, cell = gc.static_system(rng, d=d, K=K, N=force_N, frames=frames, nmin=max(3, K + 1), nmax=50 if not ctx.thorough else 90, vary_tilt=True, big=True, vary_box=True,
                                             poskind=("droplets" if rng.random() < 0.5 else "gas") if force_N else (None if rng.random() < 0.8 else "droplets"))
         ppp = gc.random_mask(rng, d)
+        gc.unwrap_in_place(rng, snaps.snapshots, [s_.hmatrix for s_ in snaps.snapshots], ppp)       # unwrapped coordinates
         types = snaps.snapshots[0].particle_type
     n = inf["N"]
     H = cell["H"]
